@@ -85,13 +85,20 @@ pub trait Deserialize: DeserializeInner {
         // SAFETY: the entire vector will be filled with data read from the file,
         // or with zeroes if the file is shorter than the vector.
         #[allow(invalid_value)]
-        let mut aligned_vec = unsafe {
-            <Vec<MemoryAlignment>>::from_raw_parts(
-                std::alloc::alloc(std::alloc::Layout::from_size_align(capacity, align_to)?)
-                    as *mut MemoryAlignment,
-                capacity / align_to,
-                capacity / align_to,
-            )
+        let mut aligned_vec = if capacity == 0 {
+            // An empty file needs no memory: the allocator must not be
+            // asked for zero bytes (and a block obtained that way would
+            // never be released, as an empty boxed slice frees nothing).
+            Vec::new()
+        } else {
+            unsafe {
+                <Vec<MemoryAlignment>>::from_raw_parts(
+                    std::alloc::alloc(std::alloc::Layout::from_size_align(capacity, align_to)?)
+                        as *mut MemoryAlignment,
+                    capacity / align_to,
+                    capacity / align_to,
+                )
+            }
         };
 
         let bytes = unsafe {
